@@ -71,6 +71,11 @@ type APICall struct {
 	OutList       []Obj
 	Err           error
 	Applied       bool     // the store executed the verb and reported success
+	// SetDeletingAtCall: the reconciled set carried a deletionTimestamp in the store when the call was executed
+	SetDeletingAtCall bool
+	// LivePodRevs (revision deletes): revision labels of the stored, non-terminating pods
+	// the reconciled set controls, by pod name, when the call was executed
+	LivePodRevs map[string]string
 	MissingClaims []string // pod create: claims of its volumes absent from the store when the create was applied
 }
 
@@ -133,6 +138,20 @@ func exec[T any](s *Sim, c *APICall, do func() (T, error)) (T, error) {
 	if c.Name != "" {
 		if o, ok := s.Store.tables[c.Kind][key(c.NS, c.Name)]; ok {
 			c.Pre = cp(o)
+		}
+	}
+	if a := s.current; a != nil && a.rec != nil && a.rec.Key != "" && c.IsWrite() {
+		if o, ok := s.Store.tables[KSet][a.rec.Key]; ok {
+			c.SetDeletingAtCall = o.GetDeletionTimestamp() != nil
+			if c.Kind == KRev && c.Verb == "delete" {
+				c.LivePodRevs = map[string]string{}
+				for _, ky := range s.Store.Keys(KPod) {
+					p := s.Store.tables[KPod][ky].(*v1.Pod)
+					if ref := controllerOf(p); ref != nil && ref.UID == o.GetUID() && p.DeletionTimestamp == nil && p.Namespace == o.GetNamespace() {
+						c.LivePodRevs[p.Name] = podRevision(p)
+					}
+				}
+			}
 		}
 	}
 	if c.Kind == KPod && (c.Verb == "create" || c.Verb == "update") {
